@@ -39,7 +39,7 @@ Record PInv (p : pstate) : Prop := {
   pi_hs : p_failed p = false -> p_hs p = HsIdle \/ p_hs p = HsCredit \/ (p_hs p = HsStoredAck /\ logat (p_log p) (p_pseq p) (p_pmid p))
 }.
 
-Lemma PInv_init notify : PInv (p_init sess notify).
+Lemma PInv_init notify fx : PInv (p_init sess notify fx).
 Proof. constructor; fin; lia. Qed.
 
 Lemma unconf_logat p e : PInv p -> In e (p_unconf p) -> logat (p_log p) (snd e) (fst e) /\ p_conf p < snd e.
@@ -162,7 +162,7 @@ Proof.
       set (s1 := if negb (p_reg p) || negb (n =? p_nonce p) then _ else p) in H.
       assert (I1 : PInv s1) by (subst s1; destruct (negb (p_reg p) || negb (n =? p_nonce p)); [destruct I; constructor; fin|exact I]).
       assert (E1 : PEnv s1 cconf cupto).
-      { subst s1; destruct (negb (p_reg p) || negb (n =? p_nonce p)); [|exact E]. destruct E. constructor; fin. }
+      { subst s1; destruct (negb (p_reg p) || negb (n =? p_nonce p)); [|exact E]. destruct E. constructor; fin; destruct (p_fix p); lia. }
       assert (L1 : p_log s1 = p_log p) by (subst s1; destruct (negb (p_reg p) || negb (n =? p_nonce p)); reflexivity).
       assert (C1 : p_conf s1 = p_conf p /\ p_cur s1 = p_cur p) by (subst s1; destruct (negb (p_reg p) || negb (n =? p_nonce p)); split; reflexivity).
       destruct ((p_sess s1 =? 0) || (p_conf s1 + 1 <=? 0) || (p_nonce s1 =? 0)).
